@@ -16,6 +16,8 @@
 From Coq Require Import ZArith List Bool Lia.
 From Alliance Require Import Num KMap Types Monad Model Step Spec Hoare.
 From Alliance.Proofs Require Import Custody.
+From Alliance Require Import WitnessLib.
+From Alliance.Witness Require Import F_C01_stranded_alliance_denom.
 Import ListNotations.
 Open Scope Z_scope.
 
@@ -57,3 +59,13 @@ Proof.
   unfold C01_example. cbn [adm_run]. repeat split; cbv [adm]; try exact I; try (unfold ACC_ALLIANCE; lia); try (vm_compute; discriminate);
     try (vm_compute; intro; discriminate); try constructor.
 Qed.
+
+(* the exactness half ("exceeding it only by coins third parties sent") is false of the code:
+   a history executed on the real implementation (corpus/F_C01_stranded_alliance_denom.jsonl)
+   in which the custody of an alliance denom grows inside the end-of-block rebalance (F-C01-1) *)
+Example C01_refuted_exactness : witness_fails 1 23 ops_F_C01_stranded_alliance_denom = true
+  /\ witness_fails 1 1 ops_F_C01_stranded_alliance_denom = false
+  /\ witness_fails 1 2 ops_F_C01_stranded_alliance_denom = false
+  /\ witness_fails 1 21 ops_F_C01_stranded_alliance_denom = false.
+Proof. vm_compute. repeat split. Qed.
+Print Assumptions C01_refuted_exactness.
